@@ -363,9 +363,16 @@ func (x *Exec) ev(st *State, e ast.Expr) Val {
 		}
 		return vs[0]
 	case *ast.TypeAssertExpr:
-		x.ev(st, e.X)
-		x.vc.note("type assertion: result unconstrained")
-		return x.havocVal(st, "tassert", x.typeOf(e))
+		v := x.ev(st, e.X)
+		tt := x.typeOf(e)
+		if _, isIface := tt.Underlying().(*types.Interface); !isIface && x.vc.info(v.Sort) != nil && x.vc.info(v.Sort).Kind == kOpaque {
+			// v.(T) with T concrete: the unboxed value; execution continues only if the dynamic type is T
+			_, unbox, id := x.boxFuncsFor(x.vc.sortOf(tt), tt, v.Sort)
+			x.assume(st, fmt.Sprintf("(= (dyntag_%s %s) %d)", v.Sort, v.T, id))
+			return Val{T: fmt.Sprintf("(%s %s)", unbox, v.T), Sort: x.vc.sortOf(tt), GoT: tt}
+		}
+		x.vc.note("type assertion to an interface type: result unconstrained")
+		return x.havocVal(st, "tassert", tt)
 	case *ast.KeyValueExpr:
 		panic(unsupported("key-value outside composite literal"))
 	}
@@ -393,10 +400,18 @@ func (x *Exec) evMulti(st *State, e ast.Expr, n int) []Val {
 		v.T = ite(ok, v.T, zero)
 		return []Val{v, {T: ok, Sort: "Bool", GoT: types.Typ[types.Bool]}}
 	case *ast.TypeAssertExpr:
-		x.ev(st, e.X)
-		x.vc.note("type assertion: result unconstrained")
+		v := x.ev(st, e.X)
+		tt := x.typeOf(e.Type)
+		if _, isIface := tt.Underlying().(*types.Interface); !isIface && x.vc.info(v.Sort) != nil && x.vc.info(v.Sort).Kind == kOpaque {
+			_, unbox, id := x.boxFuncsFor(x.vc.sortOf(tt), tt, v.Sort)
+			ok := fmt.Sprintf("(= (dyntag_%s %s) %d)", v.Sort, v.T, id)
+			ts := x.vc.sortOf(tt)
+			val := Val{T: ite(ok, fmt.Sprintf("(%s %s)", unbox, v.T), x.vc.zero(ts)), Sort: ts, GoT: tt}
+			return []Val{val, {T: ok, Sort: "Bool", GoT: types.Typ[types.Bool]}}
+		}
+		x.vc.note("type assertion to an interface type: result unconstrained")
 		okv := x.havocVal(st, "ok", types.Typ[types.Bool])
-		return []Val{x.havocVal(st, "tassert", x.typeOf(e.Type)), okv}
+		return []Val{x.havocVal(st, "tassert", tt), okv}
 	case *ast.UnaryExpr:
 		if e.Op == token.ARROW {
 			x.ev(st, e.X)
